@@ -104,16 +104,16 @@ int WindowEntry::SetThreshold(const char *threshold)
       switch(E.u.window.windop) {
         case GD_WINDOP_EQ:
         case GD_WINDOP_NE:
-          r = gd_get_constant(D->D, threshold, GD_INT64,
+          r = gd_cxx_get_scalar(D->D, threshold, GD_INT64,
               &E.u.window.threshold.i);
           break;
         case GD_WINDOP_SET:
         case GD_WINDOP_CLR:
-          r = gd_get_constant(D->D, threshold, GD_UINT64,
+          r = gd_cxx_get_scalar(D->D, threshold, GD_UINT64,
               &E.u.window.threshold.u);
           break;
         default:
-          r = gd_get_constant(D->D, threshold, GD_FLOAT64,
+          r = gd_cxx_get_scalar(D->D, threshold, GD_FLOAT64,
               &E.u.window.threshold.r);
           break;
       }
